@@ -48,6 +48,7 @@ def run(ctx) -> None:
     ctx.section("empty", _empty, ctx)
     ctx.section("footer", _footer, ctx)
     ctx.section("preview", _preview, ctx)
+    ctx.section("limit-setting", _limit_setting, ctx)
     ctx.section("headers", _headers, ctx)
     ctx.section("pure", _pure, ctx)
     ctx.info("column names of non-str type (dict keys of any hashable type) reach .lower()/.isidentifier() in _needs_quote; the "
@@ -1039,6 +1040,30 @@ def _preview(ctx) -> None:
 
 
 # --------------------------------------------------------------------------------------------- e
+def _limit_setting(ctx) -> None:
+    """`all set_repr_rows settings`: the row limit is used as a slice bound (values[:H], values[-T:]), so a setting that is not an
+    integer must be refused when it is MADE - accepted, it makes every later repr of data longer than the limit raise.  In
+    set_repr_rows a non-None setting passes through operator.index() / int() or an isinstance(.., int) refusal before it is stored."""
+    from ..sites2 import interp_of
+    from ..symx import flatten_conds, subterms
+    prog = ctx.prog
+    f = prog.functions.get("display.set_repr_rows")
+    if f is None:
+        return
+    it = interp_of(prog, f)
+    P = ("param", f.params[0]) if f.params else None
+    converted = any(e.kind == "call" and e.term[1] in (("attr", ("name", "operator"), "index"), ("name", "int"), ("name", "index"))
+                    and e.term[2] and any(x == P for x in subterms(e.term[2][0])) for e in it.events)
+    refused = any(e.kind == "raise" and any((not pol) and c[0] == "call" and c[1] == ("name", "isinstance") and c[2][0] == P
+                                            and any(y == ("name", "int") for y in subterms(c[2][1])) for c, pol in flatten_conds(e.conds))
+                  for e in it.events)
+    stores = [n for n in ast.walk(f.node) if isinstance(n, ast.Assign) and any(isinstance(t, ast.Name) and t.id == "_REPR_ROWS_DEFAULT" for t in n.targets)]
+    ctx.ob("d.preview", f, "limit-is-an-integer", bool(stores) and (converted or refused),
+           "a non-None row limit is converted with operator.index() (or refused unless an int) when it is set", f.node,
+           message="display.set_repr_rows stores any object as the row limit: set_repr_rows(12.0) is accepted and every later repr of a vector "
+                   "or table longer than the limit raises TypeError 'slice indices must be integers' (set_repr_rows('5') breaks every repr)")
+
+
 def _headers(ctx) -> None:
     """Display names are the stored names and are printed verbatim (repr-quoted when needed) - on the symx event logs of
     _compute_headers and _header_rows (closures and helpers in line, comprehension or append loop alike)."""
@@ -1175,6 +1200,7 @@ def _pure(ctx) -> None:
 
 _D = "display"
 MUTANTS = [
+    dict(id="repr-rows-setting-unchecked", module="display", old="		n = operator.index(n)\n", new="		pass\n", rules=["d.preview"], desc="reverts fix 30777a0"),
     dict(id="finite-guard-removed", module=_D, old="f\"{v:.1f}\" if math.isfinite(v) and v == int(v) else f\"{v:g}\"",
          new="f\"{v:.1f}\" if v == int(v) else f\"{v:g}\"", rules=["a.partial-ops"]),
     dict(id="clamp-removed", module=_D, old="	max_rows = max(2, max_rows)\n", new="", rules=["b.tail-slice"]),
